@@ -85,7 +85,7 @@ type Tree struct {
 	// PanicWith is the panic value (any type: a data tree is foreign code).
 	PanicWith any
 	NilAt     int // 1-based index of the callback which, if it is a GetValue, returns a nil datum without an error
-	calls   int
+	calls     int
 	// Record can be switched off for concurrent use (C06).
 	NoRecord bool
 }
